@@ -264,6 +264,8 @@ TRANSPARENT = {
     "std::option::Option::as_mut",
     "std::option::Option::cloned",
     "std::option::Option::copied",
+    "std::option::Option::as_deref",
+    "std::option::Option::as_deref_mut",
     "std::result::Result::as_ref",
     "std::boxed::Box::new",
     "std::iter::IntoIterator::into_iter",
@@ -915,6 +917,11 @@ def norm(t):
 
 def field_of(t, name):
     """field `name` of a struct-valued term, looking through fresh aggregates, field updates and merges."""
+    if t[0] == "tuple":
+        try:
+            return t[1][int(name)]
+        except (ValueError, IndexError):
+            return intern(("field", t, name))
     if t[0] == "agg":
         for _, n, v in t[3]:
             if n == name:
